@@ -64,7 +64,7 @@ def main():
             # statement deletion: a line that is one complete statement (not a binding, not a return) is commented out
             st = code.strip()
             muts = list(MUTATIONS)
-            if st.endswith(";") and not st.startswith(("let ", "return", "break", "continue", "use ", "}")) and st.count("(") == st.count(")") and st.count("{") == st.count("}"):
+            if st.endswith(";") and not st.startswith(("let ", "return", "break", "continue", "use ", "}", "const ", "pub const ", "type ")) and st.count("(") == st.count(")") and st.count("{") == st.count("}"):
                 muts.append((r"^(\s*)(\S.*)$", r"\1// deleted: \2"))
             for pat, rep in muts:
                 for m in re.finditer(pat, code):
@@ -77,17 +77,22 @@ def main():
                     with open(path, "w") as f:
                         f.write("\n".join(new))
                     n += 1
+                    why = ""
                     try:
                         r = runner.verify_unit(unit_name)
                         if r.vres.compile_errors:
                             out = "error"
+                            why = (r.vres.compile_errors[0].get("message") or "")[:160]
                         elif {f.obligation for f in r.fails} - base_fails:
                             out = "killed"
                         else:
                             out = "SURVIVED"
-                    except Exception:
+                    except Exception as e:
                         out = "error"
+                        why = str(e)[:160]
                     stats[out.lower()] += 1
+                    if out == "error" and os.environ.get("MUTATE_VERBOSE"):
+                        print(f"error {rel}:{ln} {mutated.strip()[:80]} :: {why}", flush=True)
                     if out == "SURVIVED":
                         survivors.append((rel, ln, key, text.strip(), mutated.strip()))
                         print(f"SURVIVED {rel}:{ln} [{key}]\n    - {text.strip()}\n    + {mutated.strip()}", flush=True)
